@@ -93,6 +93,40 @@ def run(ctx: Ctx, tier: str) -> Result:
             res.ok("C17.SIG", {"dispatch arguments": [a[0] for a in args]})
         else:
             res.fail(Finding("C17.SIG", pa.qname, c, pa.loc(c), "the record call does not pass (name, labels, namespace or 'deep', help, unit, value) of one metric in that order: %s" % [a[:1] for a in args]))
+    # a metric definition keeps every value under the field of the same meaning: wire field -> constructor parameter -> attribute
+    MEAN = {"name": "name", "type": "type", "metric_type": "type", "labels": "labels", "labelExpressions": "labels", "label_expressions": "labels",
+            "expression": "expression", "namespace": "namespace", "help": "help", "help_str": "help", "unit": "unit"}
+    mdc = p.cls("deep.api.tracepoint.tracepoint_config.MetricDefinition")
+    mdi = mdc.lookup("__init__")
+    nfield = 0
+    for (cq, attr), lst_ in sorted(t._attr_store_index().items()):
+        if cq != mdc.qname:
+            continue
+        for sf, v, _ in lst_:
+            if sf is not mdi or not isinstance(v, ast.Name) or v.id not in mdi.params:
+                continue
+            nfield += 1
+            if MEAN.get(v.id) is not None and MEAN.get(v.id) == MEAN.get(attr.lstrip("_")):
+                res.ok("C17.SIG", {"MetricDefinition.%s" % attr: "from parameter %s" % v.id})
+            else:
+                res.fail(Finding("C17.SIG", mdi.qname, paths.stmt_of(p, v), mdi.loc(v), "MetricDefinition.%s is stored from parameter `%s`" % (attr, v.id)))
+    res.floor("MetricDefinition fields stored from parameters", nfield, 7)
+    nctor = 0
+    for f_ in p.functions.values():
+        for c_ in t.calls_in(f_):
+            if mdc not in t.resolve_call(c_, f_).ctor:
+                continue
+            for pn, a_ in t.bind_args(mdi, c_).items():
+                wires = [n.attr for n in ast.walk(a_) if isinstance(n, ast.Attribute) and isinstance(n.value, ast.Name) and n.attr in MEAN]
+                if not wires or pn not in MEAN:
+                    continue
+                nctor += 1
+                if all(MEAN[w] == MEAN[pn] for w in wires):
+                    res.ok("C17.SIG", {"%s <- %s" % (pn, wires[0]): f_.qname})
+                else:
+                    res.fail(Finding("C17.SIG", f_.qname, c_, f_.loc(c_), "the metric definition is built with `%s` in the place of its `%s` parameter: the %s reported "
+                                     "for service-defined metrics is the %s" % (norm(a_)[:40], pn, MEAN[pn], MEAN[wires[0]])))
+    res.floor("MetricDefinition arguments taken from a wire metric", nctor, 6)
     pm = p.func(MA + "._process_metric")
     rets = list(t.nodes_in(pm, ast.Return))
     if len(rets) == 1 and isinstance(rets[0].value, ast.Tuple) and len(rets[0].value.elts) == 2:
@@ -152,7 +186,11 @@ def run(ctx: Ctx, tier: str) -> Result:
         txt = ctx.expand.expand(n.value, pm)
         guarded = g.catching_try(n.value, pm, "TypeError") is not None and g.catching_try(n.value, pm, "ValueError") is not None
         under = any(pol and ctx.expand.expand(c, pm) == ["%s.expression" % mparam] for c, pol in paths.conditions(p, n, pm))
-        if len(txt) == 1 and txt[0].startswith("float(") and "evaluate_expression(%s.expression)" % mparam in txt[0] and guarded and under:
+        others_ = [c for c, pol in paths.conditions(p, n, pm) if not (pol and ctx.expand.expand(c, pm) == ["%s.expression" % mparam])]
+        if others_:
+            res.fail(Finding("C17.VALUE", pm.qname, others_[0], pm.loc(others_[0]), "the evaluated expression becomes the value only when `%s`: for other numeric results "
+                             "(Decimal, Fraction, numpy scalars, objects with __float__) the metric silently reports 1" % norm(others_[0])[:60]))
+        elif len(txt) == 1 and txt[0].startswith("float(") and "evaluate_expression(%s.expression)" % mparam in txt[0] and guarded and under:
             res.ok("C17.VALUE", {"value": txt[0]})
         else:
             res.fail(Finding("C17.VALUE", pm.qname, n, pm.loc(n), "the metric value is not float(<the metric's expression evaluated in the frame>) inside a guard, only when an expression is given: %s" % txt))
